@@ -173,6 +173,12 @@ def setRemove (s : Store) (l : Nat) : Store :=
 def withRowsByLen (s : Store) : Store :=
   { s with from_ := List.replicate s.labels.length [], to_ := List.replicate s.labels.length [] }
 
+/-- the store built by the ICCMA'23 reader: labels `1..n`, one `new_attack_by_ids` per attack line
+(0-based ids; duplicates are not tested by that call) -/
+def ofIccma (n : Nat) (atts : List (Nat × Nat)) : Store :=
+  atts.foldl (fun s p => match s.newAttackByIds p.1 p.2 with
+    | .ok s' => s' | .err s' => s' | .panic => s) ((ofLabels ((List.range n).map (· + 1))).withRowsByLen)
+
 /-! ## observers -/
 
 /-- live arguments `(id, label)` in id order (`ArgumentSet::iter`) -/
